@@ -312,7 +312,11 @@ def option_faults(base):
     acct = "[accounting_methods]\n1970 = fifo\n"
     for c in l1.COUNTRIES:
         F.append({"cls": "method-option-and-config-section", "where": c, "country": c, "ops": [("ini", _sub_ini(base, extra=acct)), ("args", ["-m", "fifo"])]})
+        for argv in (["--method=fifo"], ["-mfifo"], ["--meth", "fifo"], ["--method", "fifo"]):
+            F.append({"cls": "method-option-and-config-section", "where": f"{c}:{' '.join(argv)}", "country": c, "argv": argv,
+                      "ops": [("ini", _sub_ini(base, extra=acct)), ("args", ["-m", "fifo"])]})
         F.append({"cls": "unsupported-method", "where": f"{c}:-m foo", "country": c, "ops": [("args", ["-m", "foo"])]})
+        F.append({"cls": "unsupported-method", "where": f"{c}:--method=foo", "country": c, "argv": ["--method=foo"], "ops": [("args", ["-m", "foo"])]})
         if c in ("es", "jp", "ie"):
             for m in ("lifo", "hifo", "lofo"):
                 F.append({"cls": "unsupported-method", "where": f"{c}:-m {m}", "country": c, "ops": [("args", ["-m", m])]})
